@@ -43,7 +43,7 @@ structure VecSt where
   gen : Nat
   /-- false once the vector has been dropped / decomposed -/
   live : Bool
-  deriving Repr, Inhabited
+  deriving Repr, Inhabited, DecidableEq
 
 namespace VecSt
 
